@@ -6,6 +6,9 @@ props = [json.loads(l) for l in open(os.path.join(V, "properties.jsonl"))]
 ids = [p["id"] for p in props]
 
 CLAIMS = {
+ "C01": dict(cat="model_checking", tech="TLC model check of spec/LHIndex.tla (every hash assignment) + TLA+ Layer-A trace validation of recordings over engineered colliding keys",
+   text="The linear-hashing index is specified in spec/LHIndex.tla and checked exhaustively by TLC for every assignment of hashes to 4-5 keys (C=2 and C=3 slots per bucket, up to 9 operations: Represents, CountOK, ScanExact, WellFormed, SplitMovesForward); the pinned findInsertionBucket config must be refuted. The real code is then driven through random histories over ~80 keys engineered (pinned seed) to share low hash bits and full 32-bit hashes, on crashfs, fs.Mem, fs.OS and fs.OSMMap with small segments, compaction and clean restarts; every result and periodic full read-backs (Get, Has, Count, Items) are validated by TLC against the sequential map of Layer A.",
+   note="Trusts TLC and the harness; real-constant (31 slots) behaviour is covered by recordings, not exhaustively.", ref="4.2, 6 (C01)"),
  "C03": dict(cat="model_checking", tech="TLA+ Layer-A trace validation (TLC) of crash-image recordings from the real code",
    text="Every recording of the real code on the fault-enumerating file system (a crash image before every mutating file-system call and at every 512-aligned cut of an in-flight write, each image reopened by the real code and read back) is validated by TLC against the property-level specification spec/PogrebAbs.tla (actions Image/Reopened/CrashOK). Model checking of recordings, not a proof: assurance is for the enumerated histories and crash points.",
    note="Trusts: TLC, the crashfs fault model (= the process-crash model stated in the property), the harness read-back through the public API.", ref="5.2, 6 (C03)"),
